@@ -260,9 +260,15 @@ func (ex *Exec) evalBuiltin(st *State, call *ast.CallExpr, name string) []Val {
 		case *types.Array:
 			return []Val{intVal(IntLit(u.Len()))}
 		case *types.Map:
-			n := Fresh("maplen", SInt)
+			// the number of entries is a function of the map's domain
+			_, d := st.mapDom(x)
+			dom := Select(d, x.C[0])
+			fn := "maplen$" + sanitize(string(dom.sort))
+			DeclareFun(fn, []Sort{dom.sort}, SInt)
+			n := App(fn, SInt, dom)
 			st.assume(Ge(n, IntLit(0)))
 			st.assume(Implies(Eq(x.C[0], IntLit(0)), Eq(n, IntLit(0))))
+			// a present key implies at least one entry
 			return []Val{intVal(n)}
 		case *types.Pointer:
 			if a, ok := u.Elem().Underlying().(*types.Array); ok {
@@ -520,8 +526,27 @@ func (ex *Exec) inline(st *State, call ast.Node, fi *FuncInfo, recv *Val, args [
 		}
 	}
 	if len(ex.inlineStack) >= maxInlineDepth || (sweepMode && len(ex.inlineStack) >= 1 && !ex.smallBody(fi)) || (sweepMode && len(ex.inlineStack) == 0 && ex.curFn != nil && !ex.smallBody(fi) && fi.Lit == nil) {
-		ex.note("call to " + fi.Key + " summarised: effects havocked (syntactic frame), results typed only")
-		ex.havocFor(st, ex.funcModSet(fi, 0), "deep."+sanitize(fi.Key))
+		ex.note("call to " + fi.Key + " summarised: effects havocked (syntactic frame refined by the callee's inferred frame), results typed only")
+		ms := ex.funcModSet(fi, 0)
+		before := map[string]*Term{}
+		for h, srt := range ms.heaps {
+			before[h] = st.heapGet(h, srt)
+		}
+		ctrBefore := st.ctr
+		ex.havocFor(st, ms, "deep."+sanitize(fi.Key))
+		if !ex.frameProbe || true {
+			pres := ex.preservedHeaps(fi)
+			for _, h := range ms.heapNames() {
+				if pres[h] {
+					cur := st.heapGet(h, ms.heaps[h])
+					if cur == before[h] {
+						continue
+					}
+					r := BVar("r", SInt)
+					st.assume(Forall([]*Term{r}, Implies(Lt(r, ctrBefore), Eq(Select(cur, r), Select(before[h], r))), []*Term{Select(cur, r)}))
+				}
+			}
+		}
 		return ex.havocResults(st, fi.Sig, "deep."+sanitize(fi.Key))
 	}
 	ex.prepareFunc(fi)
